@@ -120,9 +120,21 @@ def b_lattice(ch):
     return d
 
 
+def b_deep(ch):
+    d = c05.build_deep(ch, with_options=False)
+    d.rho_cls = {}
+    for c in d.hcells:
+        d.rho_cls[c.num] = {'-2.7': 'a', '-1.0': 'b', '-0.5': 'z'}.get(c.rho)
+    c09.VAL['-0.5'] = -0.5
+    d.options = choose_config(ch)
+    d.family = 'tree'
+    return d.finish()
+
+
 def scenarios(tier):
     q = tier == 'quick'
     return [
+        Scn('deep', b_deep, None, None, '4 ... 16 levels of nested universes x all 56 configurations'),
         Scn('lattice', b_lattice, 1 if q else 2, 2, 'C06 lattices (deck choices deviation-bounded) x all 56 configurations'),
         Scn('tree', b_tree, 2 if q else 3, 3, 'C05 trees (deck choices deviation-bounded) x all 56 configurations'),
         Scn('stress', b_stress, None, None, 'surface-equality stress decks x all 56 configurations'),
